@@ -18,7 +18,17 @@ PFX = {2: 'Line', 3: 'Quad', 4: 'Cubic'}
 
 
 def gen_seg(rng):
-    fam = rng.choice(['int', 'float', 'grid', 'collinear', 'arch', 'elevated', 'sliver', 'double', 'quad-linear', 'origin', 'elevated-scaled', 'cubic-scaled'])
+    fam = rng.choice(['int', 'float', 'grid', 'collinear', 'arch', 'elevated', 'sliver', 'double', 'quad-linear', 'origin', 'elevated-scaled', 'cubic-scaled', 'even-three'])
+    if fam == 'even-three':
+        # three consecutive control points EXACTLY evenly spaced on one axis (the derivative's linear coefficient is exactly 0 there) and the fourth turning
+        # back: an interior extremum at t = sqrt(d / (d - e))
+        x0 = float(rng.randint(-200, 200)); d = float(rng.randint(5, 120)) * rng.choice([-1, 1]); e = -math.copysign(float(rng.randint(5, 300)), d)
+        xs = [x0, x0 + d, x0 + 2 * d, x0 + 2 * d + e]
+        ys = [float(rng.randint(-300, 300)) for _ in range(4)] if rng.random() < 0.6 else [rng.uniform(-300, 300) for _ in range(4)]
+        ps = [P(x, y) for x, y in zip(xs, ys)]
+        if rng.random() < 0.5: ps = [P(q.y, q.x) for q in ps]
+        if rng.random() < 0.5: ps.reverse()
+        return fam, CubicBezier(*ps)
     if fam in ('elevated-scaled', 'cubic-scaled'):
         # the same shapes at other magnitudes: relative tests must not turn into absolute ones (coordinates 1e-10 .. 1e8)
         sc = 10.0 ** rng.choice([-10, -8, -5, 3, 4, 5, 7, 8]); rr = lambda: P(rng.uniform(-3, 3) * sc, rng.uniform(-3, 3) * sc)
